@@ -95,7 +95,7 @@ def retL (t : PThread) : List Nat := if t.isProd && pastStop t.q.pc then [retOf 
 
 /-- the item a producer holds under the input lock, between `next` and `release` -/
 def handItems (t : PThread) : List Item :=
-  if t.isProd && t.q.pc == .eNext && t.useLock && t.ipc == .rel then
+  if t.isProd && t.q.pc == .eNext && t.ipc == .rel then
     (match t.hand with | .item i => [i] | .stop => [])
   else []
 
